@@ -11,6 +11,8 @@ class Recorder(object):
         self.events = []
         self.seq = 0
         self.listeners = []
+        from .bus import VBUS
+        VBUS.reset()
 
     def add(self, **ev):
         from vlib import simloop
